@@ -304,7 +304,85 @@ def run_rejected_then_more(case: Dict[str, Any]) -> Dict[str, Any]:
             'sets': {'outcomes': {outc}}, 'sample': {'case': case}}
 
 
+_WEBR: Dict[str, Any] = {}
+
+
+def _web_route_plugin() -> Any:
+    if 'cls' not in _WEBR:
+        from proxy.http.server import HttpWebServerBasePlugin, httpProtocolTypes
+        from proxy.http.responses import okResponse
+
+        class KeepRoute(HttpWebServerBasePlugin):
+            def routes(self) -> List[Tuple[int, str]]:
+                return [(httpProtocolTypes.HTTP, r'/kept/')]
+
+            def handle_request(self, request: Any) -> None:
+                self.client.queue(okResponse(content=b'kept:' + (request.path or b''), compress=False))
+        _WEBR['cls'] = KeepRoute
+    return _WEBR['cls']
+
+
+def run_web_followup_rejected(case: Dict[str, Any]) -> Dict[str, Any]:
+    """The decision to reject may fall on a FOLLOW-UP request of a kept-alive web connection (a path no route knows, after a
+    routed one): the 404 is well-formed, and the connection is closed behind it - a request sent afterwards is never served."""
+    rng = random.Random('c06w:%s:%s' % (case['seed'], case['i']))
+    flags = make_flags(['--enable-web-server'], plugins=[_web_route_plugin()], cache_key='c06:webroute')
+    shim.S.reset()
+    rig = StepRig(flags, case.get('mode', 'local'))
+    viol: List[Dict[str, Any]] = []
+    obs: Dict[str, int] = {'kind:web-followup-rejected': 1}
+    outc = 'error'
+    try:
+        client = rig.add_client(case.get('transport', 'unix'))
+        first = b'GET /kept/%d HTTP/1.1\r\nHost: w.test\r\n\r\n' % case['i']
+        bad_path = rng.choice([b'/no-such-route', b'/kept', b'/Kept/1', b'/other/kept/', b'/'])
+        second = b'GET %s HTTP/1.1\r\nHost: w.test\r\n%s\r\n' % (bad_path, rng.choice([b'', b'Connection: keep-alive\r\n', b'Accept: */*\r\n']))
+        third = b'GET /kept/after HTTP/1.1\r\nHost: w.test\r\n\r\n'
+
+        def nresp() -> int:
+            ms, _e, _r = h11util.parse_responses(bytes(client.rx), [b'GET'] * 4, eof=False)
+            return sum(1 for m in ms if m['complete'])
+        if case['packing'] == 'concatenated':
+            client.send(first + second)
+        else:
+            client.send(first)
+            rig.until(lambda: nresp() >= 1 or client.ended, [client], idle_timeout=0.4)
+            client.send(second)
+        rig.until(lambda: nresp() >= 2 or client.ended, [client], idle_timeout=0.4)
+        rig.settle([client], quiet=8)
+        ms, err, rest = h11util.parse_responses(bytes(client.rx), [b'GET'] * 4, eof=client.eof)
+        detail = {'second': second, 'packing': case['packing'], 'client': bytes(client.rx[-200:]), 'ended': client.ended,
+                  'codes': [m['code'] for m in ms]}
+        if err or rest or len(ms) != 2 or not all(m['complete'] for m in ms) or ms[0]['code'] != 200:
+            viol.append({'key': 'web|followup-rejected|answers-malformed-or-miscounted', 'detail': dict(detail, err=err)})
+        elif ms[1]['code'] >= 400:
+            outc = 'rejected'
+            says_close = dict(ms[1]['headers']).get(b'connection', b'').lower() == b'close'
+            if not client.ended:
+                before = len(client.rx)
+                client.send(third)
+                rig.until(lambda: client.ended or len(client.rx) > before, [client], idle_timeout=0.4)
+                rig.settle([client], quiet=6)
+                if len(client.rx) > before:
+                    viol.append({'key': 'web|followup-rejected|request-served-after-the-connection-was-rejected', 'detail': dict(detail, says_close=says_close)})
+                elif not client.ended:
+                    viol.append({'key': 'web|followup-rejected|connection-kept-open-after-rejection', 'detail': dict(detail, says_close=says_close)})
+            if not viol:
+                obs['web_followup_rejections_checked'] = 1
+        else:
+            outc = 'served'     # a route answered that path after all: nothing was rejected
+    except LoopDied as e:
+        viol.append({'key': 'web|followup-rejected|loop-died:%s' % e.where(), 'detail': {'tb': e.tb[-900:]}})
+    finally:
+        rig.close()
+    obs['outcome:' + outc] = 1
+    return {'viol': viol, 'nontrivial': True, 'sig': 'wfr/%s/%s/%s' % (case['i'], case['packing'], case.get('mode')), 'obs': obs,
+            'sets': {'outcomes': {outc}}, 'sample': {'case': case}}
+
+
 def run_case(case: Dict[str, Any]) -> Dict[str, Any]:
+    if case.get('kind') == 'web-followup-rejected':
+        return run_web_followup_rejected(case)
     if case.get('kind') == 'builder':
         return run_builder_case(case)
     if case.get('kind') == 'rejected-then-more':
@@ -485,6 +563,8 @@ def cases(tier: str, seed: int):
     for k, garbage in enumerate(['BOGUS\r\n\r\n', 'GET\r\n\r\n', 'POST http://h.test/x HTTP/1.1\r\nContent-Length: abc\r\n\r\n', 'GET gopher://x/ HTTP/1.1\r\n\r\n',
                                  'POST http://h.test/x HTTP/1.1\r\nTransfer-Encoding: chunked\r\n\r\nZZ\r\n'] * (2 if tier == 'quick' else 20)):
         yield mk(kind='rejected-then-more', garbage=garbage, size=[1000, 200000][k % 2], mid_response=True, mode='local' if k % 3 else 'remote')
+    for k in range(40 if tier == 'quick' else 600):
+        yield mk(kind='web-followup-rejected', packing=['separate', 'concatenated'][k % 2], mode='local' if k % 3 else 'remote', transport=['unix', 'tcp'][(k // 2) % 2])
     for a in range(11):
         for b2 in range(11):
             for shape in (['cl-cl'] if tier == 'quick' and (a + b2) % 3 else ['cl-cl', 'triple']):
@@ -502,7 +582,7 @@ def cases(tier: str, seed: int):
 def floors(tier: str) -> Dict[str, int]:
     return {'builder:L2': 300, 'builder:L7': 300, 'builder:L8': 300,'outcome:rejected': 300, 'outcome:waiting': 100, 'outcome:closed-silently': 5, 'kind:trunc': 300,
             'kind:mutate': 200, 'kind:random': 200, 'kind:nonutf8': 50, 'distinct:outcomes': 5,
-            'kind:dup-framing': 150, 'nothing_forwarded_after_rejection': 6, 'mid_response_followups_checked': 6}
+            'kind:dup-framing': 150, 'nothing_forwarded_after_rejection': 6, 'mid_response_followups_checked': 6, 'web_followup_rejections_checked': 25}
 
 
 if __name__ == '__main__':
